@@ -1421,3 +1421,82 @@ func numberWidthRule(r *Report, p *Prog, rule string, pkgs ...string) int {
 	}
 	return n
 }
+
+// signedParseRule: identifiers of a version are runs of digits; strconv.ParseInt
+// and Atoi also accept a leading sign, so "-1" (a legal alphanumeric prerelease
+// identifier, '-' being in the alphabet) is read as the number -1 and sorts as
+// a number. Every sign-accepting parse in the package either has its result
+// tested negative on the way to an error return, or is a reviewed exception.
+var signedParseReviewed = map[string]string{
+	"semver.isNumeric: strconv.ParseInt #1": "NuGet branch: NuGet.Versioning parses prerelease numbers with int.TryParse, which accepts a sign",
+}
+
+func signedParseRule(r *Report, p *Prog, rule string, pkgs ...string) int {
+	n := 0
+	for _, f := range p.Funcs {
+		if f.Pkg == nil || f.Blocks == nil {
+			continue
+		}
+		in := false
+		for _, pk := range pkgs {
+			if f.Pkg.Pkg.Path() == modPrefix+pk {
+				in = true
+			}
+		}
+		if !in {
+			continue
+		}
+		perFn := map[string]int{}
+		for _, b := range f.Blocks {
+			for _, ins := range b.Instrs {
+				call, ok := ins.(*ssa.Call)
+				if !ok {
+					continue
+				}
+				name := staticCalleeName(call)
+				if name != "strconv.ParseInt" && name != "strconv.Atoi" {
+					continue
+				}
+				n++
+				perFn[name]++
+				key := fmt.Sprintf("%s: %s #%d", fnKey(f), name, perFn[name])
+				// is the result compared `< 0` somewhere in the function?
+				negTested := false
+				var visit func(v ssa.Value, d int)
+				visit = func(v ssa.Value, d int) {
+					if d > 4 || v.Referrers() == nil {
+						return
+					}
+					for _, u := range *v.Referrers() {
+						switch x := u.(type) {
+						case *ssa.BinOp:
+							if k, ok := x.Y.(*ssa.Const); ok && k.Value != nil && x.Op == token.LSS && k.Int64() == 0 {
+								negTested = true
+							}
+						case *ssa.Extract:
+							if x.Index == 0 {
+								visit(x, d+1)
+							}
+						case *ssa.Convert:
+							visit(x, d+1)
+						case *ssa.ChangeType:
+							visit(x, d+1)
+						case *ssa.Phi:
+							visit(x, d+1)
+						}
+					}
+				}
+				visit(call, 0)
+				switch {
+				case negTested:
+					r.ok(rule, key, p.pos(call.Pos()), "the parsed number is tested `< 0`: a signed spelling is rejected")
+				case signedParseReviewed[key] != "":
+					r.ok(rule, key, p.pos(call.Pos()), "reviewed: "+signedParseReviewed[key])
+				default:
+					r.bad(rule, key, p.pos(call.Pos()), "a sign-accepting parser reads identifier text and nothing rejects a negative result: an identifier such as \"-1\" (alphanumeric by the grammar, since '-' is in the identifier alphabet) is taken for the number -1 and ordered as a number")
+				}
+			}
+		}
+	}
+	return n
+}
